@@ -2015,6 +2015,8 @@ cmd_ical(EV_P_ int ofd, ical_parser_t cmd[static 1U], ncred_t cred)
 			if (UNLIKELY(ins.t == NULL)) {
 				continue;
 			}
+			/* the reply is about this task */
+			ins.o = ins.t->oid;
 			/* and otherwise inject him */
 			if (UNLIKELY(_inject_task1(EV_A_ ins.t, cred.u) < 0)) {
 				/* reply with REQUEST-STATUS:x */
